@@ -1301,7 +1301,7 @@ func (e *stEngine) block(pending []*stTx, dt uint64) {
 			case stTick:
 				rule = "C06/tick-accepted-what-must-be-refused"
 			}
-			r.Violation(rule, "", "%s by %s succeeded", bt.desc, signerNames(bt.signers))
+			r.ViolationSynced(rule, "", "%s by %s succeeded", bt.desc, signerNames(bt.signers))
 			// follow the implementation so that the remaining monitors still see it
 			if apply == nil {
 				apply, tch = e.force(bt)
@@ -1311,7 +1311,7 @@ func (e *stEngine) block(pending []*stTx, dt uint64) {
 			if bt.kind == stTick {
 				rule = "C06/tick-refused"
 			}
-			r.Violation(rule, "", "%s by %s refused: %s", bt.desc, signerNames(bt.signers), aer.FaultException)
+			r.ViolationSynced(rule, "", "%s by %s refused: %s", bt.desc, signerNames(bt.signers), aer.FaultException)
 		}
 		if bt.kind == stEstPut && exp == stDontCare && !took {
 			r.Count("probe.est_v2_only_refused")
